@@ -24,6 +24,11 @@ from .common import call_args, effect_calls, is_call_of, node_iterator_domain, n
 
 
 def check(model: Model, rep: Report, tier: str):
+    from .c05 import _k1_k2 as _k12
+    from .common import share_rule as _sh
+    with rep.isolated():
+        _sh(rep, model, _k12, "C06.U9", "copies 2..n of an unrolled block are made with copy(): copy() of every operation class builds that same class with the same fields "
+            "(= C05.K1/K2), so the unrolled listing is the n-fold concatenation of the block's own kinds")
     with rep.isolated():
         u1(model, rep)
     with rep.isolated():
